@@ -367,6 +367,9 @@ impl Sim {
             K::Y => {
                 em.insert(Y(v));
             }
+            K::Z => {
+                em.insert(Z);
+            }
         }
     }
 
@@ -381,6 +384,7 @@ impl Sim {
             K::S => w.get::<S>(e).is_some(),
             K::X => w.get::<X>(e).is_some(),
             K::Y => w.get::<Y>(e).is_some(),
+            K::Z => w.get::<Z>(e).is_some(),
         }
     }
 
@@ -430,6 +434,12 @@ impl Sim {
                     c.0 = v;
                 }
             }
+            K::Z => {
+                if let Some(mut c) = w.get_mut::<Z>(e) {
+                    // nothing to change in a zero-sized value: mark it changed, as `DerefMut` would
+                    c.set_changed();
+                }
+            }
         }
     }
 
@@ -459,6 +469,9 @@ impl Sim {
             }
             K::Y => {
                 em.remove::<Y>();
+            }
+            K::Z => {
+                em.remove::<Z>();
             }
         }
     }
@@ -1797,6 +1810,9 @@ impl Sim {
         }
         if let Some(c) = w.get::<S>(e) {
             m.insert("S", c.0 as u64);
+        }
+        if w.get::<Z>(e).is_some() {
+            m.insert("Z", 0);
         }
         if let Some(c) = w.get::<X>(e) {
             m.insert("X", c.0 as u64);
